@@ -857,3 +857,47 @@ Proof.
   - intros H. destruct (pp s), (bp s), (cn s); cbn [length] in H; try lia. auto.
   - intros (-> & -> & ->). reflexivity.
 Qed.
+
+(** ---------- progress under the tightest size limit ---------- *)
+
+(** the tightest size limit: each send carries exactly one queued item (first a cancel,
+    else the first pending peer entry, else the first pending broadcast entry) *)
+Definition send_one (fl : flags) (sh : bool) (s : st) : st :=
+  match cn s, pp s, bp s with
+  | c :: _, _, _ => do_step fl sh s (SSend [c] [] [])
+  | [], e :: _, _ => do_step fl sh s (SSend [] [e] [])
+  | [], [], e :: _ => do_step fl sh s (SSend [] [] [e])
+  | [], [], [] => s
+  end.
+
+Lemma went_eqb_refl (a : went) : went_eqb a a = true.
+Proof. unfold went_eqb. rewrite !Z.eqb_refl. reflexivity. Qed.
+
+Lemma send_one_strict fl sh s : (0 < work s)%nat -> (work (send_one fl sh s) < work s)%nat.
+Proof.
+  intros H. unfold send_one.
+  destruct (cn s) as [|c rc] eqn:Ec.
+  - destruct (pp s) as [|[c pt] rp] eqn:Ep.
+    + destruct (bp s) as [|[c pt] rb] eqn:Eb.
+      * unfold work in H. rewrite Ec, Ep, Eb in H. cbn in H. lia.
+      * apply send_strict. right. right. rewrite Eb. cbn [zget]. rewrite Z.eqb_refl. apply went_eqb_refl.
+    + apply send_strict. right. left. rewrite Ep. cbn [zget]. rewrite Z.eqb_refl. apply went_eqb_refl.
+  - apply send_strict. left. rewrite Ec. cbn [smem existsb]. rewrite Z.eqb_refl. reflexivity.
+Qed.
+
+Fixpoint sends_one (fl : flags) (sh : bool) (n : nat) (s : st) : st :=
+  match n with O => s | S k => send_one fl sh (sends_one fl sh k s) end.
+
+Lemma send_one_iter fl sh n : forall s, (work (sends_one fl sh n s) <= work s - n)%nat.
+Proof.
+  induction n as [|n IH]; intros s; cbn [sends_one]; [lia|].
+  specialize (IH s). remember (sends_one fl sh n s) as s' eqn:E.
+  destruct (work s') as [|k] eqn:W.
+  - assert (I : idle s') by (apply work_idle; exact W). destruct I as (I1 & I2 & I3).
+    unfold send_one. rewrite I1, I2, I3. cbv beta iota. lia.
+  - pose proof (send_one_strict fl sh s') as S. lia.
+Qed.
+
+(** with a size limit of ONE entry per message, [work s] sends reach idle from any state *)
+Theorem send_one_reaches_idle fl sh s : idle (sends_one fl sh (work s) s).
+Proof. apply work_idle. pose proof (send_one_iter fl sh (work s) s). lia. Qed.
